@@ -1,4 +1,5 @@
-/- Line-protocol driver for the C06 models (ForML.Model.Parser, ForML.Model.DslDenote, ForML.Model.FeedCache).
+/- Line-protocol driver for the C06 models (ForML.Model.Parser, ForML.Model.ParserHints, ForML.Model.DslDenote,
+   ForML.Model.FeedCache).
 
   line   ::= (let ((var sexp)*) op) | op
   op     ::= (parse sources stmt)                 -> (ok <agrees-with-compile>) | (error <kind>)
@@ -16,6 +17,7 @@ import ForML.Model.Parser
 import ForML.Model.ParserWF
 import ForML.Model.DslDenote
 import ForML.Model.FeedCache
+import ForML.Model.ParserHints
 open ForML ForML.Dsl ForML.Rel ForML.Parser
 
 def valOfSexp : Sexp → Option Val
@@ -88,14 +90,15 @@ def stepC06 (line : Sexp) : Sexp :=
   | some (.list [.atom "parse", srcs, stmt]) =>
     match sourcesOfSexp srcs, Source.ofSexp stmt with
     | some srcs, some s =>
-      match parse srcs s with
+      match ForML.Parser.Hints.parseH srcs s with
       | .ok q => .list [.atom "ok", Sexp.ofBool (compile srcs s == some q)]
       | .error e => .list [.atom "error", .atom e.wire]
     | _, _ => .atom "bad-op"
   | some (.list [.atom "run", srcs, stmt, db]) =>
     match sourcesOfSexp srcs, Source.ofSexp stmt, dbOfSexp db with
     | some srcs, some s, some db =>
-      let p := parse srcs s
+      -- the visitor with the per-table segments and the hint code `visit_table` generates (= `parse` on `WF`)
+      let p := ForML.Parser.Hints.parseH srcs s
       let sql := match p with
         | .ok q => evalSql q db
         | .error _ => none
